@@ -163,6 +163,7 @@ pub fn family(name: &str) -> Family {
             binary: vec!["then", "or", "delim"],
             alphabet: vec!["a", "b", "(", ")"],
         },
+        "pratt" => Family { leaves: vec![], unary: vec![], binary: vec![], alphabet: vec!["a", "b", "+", "*", "-", "!", "^", "~"] },
         _ => panic!("unknown family {name}"),
     }
 }
@@ -277,8 +278,27 @@ pub fn gen_input(r: &mut Rng, f: &Family, max_len: usize) -> Vec<&'static str> {
     (0..n).map(|_| *r.pick(&f.alphabet)).collect()
 }
 
+/// C09: a random operator table (1..6 operators over 6 symbols, 4 power levels, the same symbol
+/// allowed as prefix and infix), as vec or tuple table, optionally followed by a rest capture
+pub fn gen_pratt(r: &mut Rng) -> J {
+    let n = 1 + r.below(6);
+    let syms = ["+", "*", "-", "!", "^", "~"];
+    let fixes = ["prefix", "postfix", "infixl", "infixr", "infixl"];
+    let ops: Vec<J> = (0..n).map(|_| json!([*r.pick(&fixes), r.below(4), *r.pick(&syms)])).collect();
+    let table = if r.chance(1, 2) { "vec" } else { "tuple" };
+    let p = json!(["pratt", ["oneof", ["a", "b"]], ops, table]);
+    if r.chance(1, 3) {
+        json!(["then", p, ["collect", ["rep", ["any"], 0, -1], "vec"]])
+    } else {
+        p
+    }
+}
+
 /// A well-formed random grammar of the family with at most `budget` nodes (approximately).
 pub fn gen_wf(r: &mut Rng, f: &Family, budget: usize) -> J {
+    if f.leaves.is_empty() {
+        return gen_pratt(r);
+    }
     loop {
         let g = gen(r, f, budget);
         if wf(&g) {
